@@ -240,6 +240,9 @@ func interp[M any, R any](rec *recorder, s int, prog []string, ctx context.Conte
 func replaceReq(msg *kmip.RequestMessage, u, s int) *kmip.RequestMessage {
 	n := *msg
 	n.Header.BatchCount = 1
+	if upgradeVersion {
+		n.Header.ProtocolVersion = kmip.V1_4
+	}
 	n.BatchItem = []kmip.RequestBatchItem{{Operation: kmip.OperationActivate, RequestPayload: &payloads.ActivateRequestPayload{UniqueIdentifier: msgID(u, s)}}}
 	return &n
 }
@@ -353,6 +356,7 @@ type srvSys struct {
 	ex       *kmipserver.BatchExecutor
 	stop     bool
 	critical bool
+	upgrade  bool
 }
 
 // reqMsgStop: the request of the "srvmsg-stop" chain: the core of a message chain is the whole batch execution, and every
@@ -470,6 +474,9 @@ func (s *srvSys) run(u int) (k string, f int) {
 	if s.stop {
 		msg = reqMsgStop(u, 0)
 	}
+	if s.upgrade {
+		msg.Header.ProtocolVersion = kmip.V1_2
+	}
 	if s.critical {
 		msg.BatchItem[0].MessageExtension = &kmip.MessageExtension{VendorIdentification: "verif", CriticalityIndicator: true}
 	}
@@ -490,6 +497,11 @@ func build(rec *recorder, kind string, chain []string) (system, error) {
 		return newSrvSys(rec, chain, true), nil
 	case "srvmsg-late":
 		return newSrvSys(rec, chain, false, true), nil
+	case "srvmsg-upgrade":
+		sys := newSrvSys(rec, chain, false).(*srvSys)
+		sys.ex.SetSupportedProtocolVersions(kmip.V1_4)
+		sys.upgrade = true
+		return sys, nil
 	case "srvitem-critical":
 		sys := newSrvSys(rec, chain, true).(*srvSys)
 		sys.critical = true
@@ -514,7 +526,7 @@ type kindVariant struct {
 // every chain runs on the three real chains; chains that derive contexts additionally run on the two
 // server chains with derived contexts that are already cancelled
 func kindVariants(chain []string) []kindVariant {
-	kv := []kindVariant{{"client", false}, {"srvmsg", false}, {"srvitem", false}, {"srvmsg-late", false}, {"srvitem-late", false}, {"srvmsg-stop", false}, {"client-builtin", false}, {"srvitem-critical", false}}
+	kv := []kindVariant{{"client", false}, {"srvmsg", false}, {"srvitem", false}, {"srvmsg-late", false}, {"srvitem-late", false}, {"srvmsg-stop", false}, {"client-builtin", false}, {"srvitem-critical", false}, {"srvmsg-upgrade", false}}
 	for _, p := range chain {
 		if p == "newctx" || p == "thrice" {
 			return append(kv, kindVariant{"srvmsg", true}, kindVariant{"srvitem", true})
@@ -540,9 +552,32 @@ func criticalView(exp []Event) []Event {
 	return res
 }
 
+// upgradeView: what Chain.tla's history looks like on an executor that supports protocol version 1.4 only, when the request arrives
+// with version 1.2 and every message a stage substitutes carries 1.4: the core rejects the original message (token 0) before any
+// handler runs and serves every substituted one - it looks at the message it is given, not at the one the chain was entered with.
+func upgradeView(exp []Event) []Event {
+	var res []Event
+	for _, e := range exp {
+		if e.E == "core" && e.M == 0 {
+			continue
+		}
+		if e.E == "exit" && e.K == "ok" && e.F == 0 {
+			e.K, e.F = "err", -1
+		}
+		res = append(res, e)
+	}
+	return res
+}
+
+// upgradeVersion: substituted messages carry version 1.4 (set while a srvmsg-upgrade chain is replayed)
+var upgradeVersion bool
+
 func eventsEqual(kind string, got, exp []Event) bool {
 	if kind == "srvitem-critical" {
 		exp = criticalView(exp)
+	}
+	if kind == "srvmsg-upgrade" {
+		exp = upgradeView(exp)
 	}
 	if len(got) != len(exp) {
 		return false
@@ -587,12 +622,17 @@ func TestReplay(t *testing.T) {
 			for rep := 0; rep < 3; rep++ {
 				u++
 				runs++
+				upgradeVersion = kind == "srvmsg-upgrade"
 				k, f := sys.run(u)
+				upgradeVersion = false
 				rec.mu.Lock()
 				got := rec.hist[u]
 				rec.mu.Unlock()
 				expK, expF := c.Final[0].(string), int(c.Final[1].(float64))
 				if kind == "srvitem-critical" && expK == "ok" && expF <= 0 {
+					expK, expF = "err", -1
+				}
+				if kind == "srvmsg-upgrade" && expK == "ok" && expF == 0 {
 					expK, expF = "err", -1
 				}
 				if !eventsEqual(kind, got, c.Hist) || k != expK || f != expF {
